@@ -97,6 +97,35 @@ def o_replay_transparent(ex, V):
                 first[p] = (k, ev[2])
 
 
+@oracle("C08")
+def o_ids(ex, V):
+    """One id per position and one position per id over the whole execution; every update of an operation carries
+    the id of the enclosing context as its parent (none at top level)."""
+    id_of, pos_of = {}, {}
+    for k, inv in enumerate(ex["invs"]):
+        for ev in inv["raw_trace"]:
+            if ev[0] != "upd" or ev[1].get("pos") is None:
+                continue
+            u = ev[1]
+            p_ = tuple(u["pos"])
+            if id_of.setdefault(p_, u["id"]) != u["id"]:
+                V("C08.one_position_two_ids", {"inv": k, "pos": list(p_), "ids": [id_of[p_], u["id"]]})
+            if pos_of.setdefault(u["id"], p_) != p_:
+                V("C08.one_id_two_positions", {"inv": k, "id": u["id"], "positions": [list(pos_of[u["id"]]), list(p_)]})
+    for k, inv in enumerate(ex["invs"]):
+        for ev in inv["raw_trace"]:
+            if ev[0] != "upd" or ev[1].get("pos") is None:
+                continue
+            u = ev[1]
+            p_ = tuple(u["pos"])
+            want = id_of.get(p_[:-1]) if len(p_) > 1 else None
+            if len(p_) > 1 and want is None:
+                continue
+            if (u.get("parent") or None) != want:
+                V("C08.parent_link_is_not_the_enclosing_context", {"inv": k, "pos": list(p_), "action": u["action"], "type": u["type"],
+                                                                   "parent_sent": u.get("parent"), "enclosing_context_id": want})
+
+
 @oracle("C03")
 def o_write_ahead(ex, V):
     """An outcome is delivered only when the backend holds the terminal record (status read from the backend at
@@ -231,8 +260,40 @@ def o_step_retries(ex, V):
 def o_wfc_state(ex, V):
     """poll n+1 receives what the last *recorded* poll returned; attempts increase by one."""
     recorded = {}  # pos -> (attempt, state) of the last accepted RETRY
+    specs = {}
+
+    def walk(stmts, ctx):
+        n = 0
+        for st in stmts:
+            if st["op"] in ("step", "wait", "cbnew", "invoke", "wfc", "child"):
+                n += 1
+                if st["op"] == "wfc":
+                    specs[tuple(ctx + [n])] = st
+                if st["op"] == "child":
+                    walk(st["body"], ctx + [n])
+    walk(ex["script"], [])
+    ended_in_error = set()
     for k, inv in enumerate(ex["invs"]):
         tblpos = {tuple(r["pos"]): r for r in inv["start_tbl"]}
+        returned = {}       # pos -> token the check function returned in the poll just made
+        failed = set()
+        for ev in inv["trace"]:
+            if ev[0] == "enter" and ev[2] == "wfc" and tuple(ev[1]) in specs:
+                ck = specs[tuple(ev[1])]["check"]
+                o = ck[min((ev[3] or 1) - 1, len(ck) - 1)]
+                returned[tuple(ev[1])] = o.get("ok")
+            elif ev[0] == "upd" and ev[1]["kind"] == "wfc" and ev[1]["action"] in ("RETRY", "SUCCEED") and tuple(ev[1]["pos"]) in returned:
+                want = returned.pop(tuple(ev[1]["pos"]))
+                if want is not None and ev[1]["payload"] != want:
+                    # the state recorded for the next poll / as the result is the one the check returned, exactly
+                    V("C13.recorded_state_is_not_the_returned_state", {"inv": k, "pos": ev[1]["pos"], "returned": want, "recorded": ev[1]["payload"],
+                                                                        "action": ev[1]["action"]})
+        for ev in inv["trace"]:
+            if ev[0] == "deliver" and "err" in ev[2] and tuple(ev[1]) in specs:
+                ended_in_error.add(tuple(ev[1]))
+            elif ev[0] == "enter" and ev[2] == "wfc" and tuple(ev[1]) in ended_in_error:
+                # a wait_for_condition call that raised to user code is finished: it is never polled again
+                V("C13.condition_polled_again_after_it_failed", {"inv": k, "pos": ev[1], "attempt": ev[3]})
         for ev in inv["trace"]:
             if ev[0] == "enter" and ev[2] == "wfc":
                 p = tuple(ev[1])
@@ -270,6 +331,23 @@ def o_callbacks(ex, V):
         for ev in inv["trace"]:
             if ev[0] == "deliver" and isinstance(ev[2].get("ok"), str) and ev[2]["ok"].startswith("cb?"):
                 V("C14.callback_id_changed", {"inv": k, "pos": ev[1], "got": ev[2]["ok"]})
+    kinds = {tuple(p): op for p, op in E.static_positions(ex["script"])}
+    # the START of a callback / chained invoke is applied at most once per execution
+    applied = {}
+    for k, inv in enumerate(ex["invs"]):
+        for t, us, o in inv["calls"]:
+            for name, action in us:
+                if action == "START" and name and name.startswith("p:"):
+                    pos = tuple(int(x) for x in name[2:].split("."))
+                    if kinds.get(pos) in ("cbnew", "invoke"):
+                        if pos in applied and o != "ok":
+                            # sent again (and refused by the backend) for an operation that was already started
+                            V("C14.start_sent_again", {"pos": list(pos), "op": kinds[pos], "inv": k, "first_applied_in": applied[pos][0], "outcome": o})
+                        if o == "ok":
+                            applied.setdefault(pos, []).append(k)
+    for pos, ks in applied.items():
+        if len(ks) > 1:
+            V("C14.start_applied_twice", {"pos": list(pos), "op": kinds[pos], "invocations": ks})
     # result() / invoke() hand back exactly what the backend holds for the callback / chained invoke
     kinds = {tuple(p): op for p, op in E.static_positions(ex["script"])}
     for k, inv in enumerate(ex["invs"]):
@@ -376,7 +454,7 @@ def o_large_replay_equal(ex, V):
 
 
 ALL_ORACLES = [o_large, o_large_replay_equal, o_completed_yields, o_no_reentry, o_replay_transparent, o_write_ahead, o_amo, o_suspension, o_valid_history, o_step_retries,
-               o_wfc_state, o_callbacks, o_logger]
+               o_wfc_state, o_callbacks, o_logger, o_ids]
 
 
 def run_oracles(ctx, ex, component, only_prop=None):
@@ -547,6 +625,20 @@ def extra(ctx, prop):
             run_oracles(ctx, ex, "engine.large_final.nonascii", only_prop=prop)
             ctx.case((json.dumps(script, sort_keys=True), json.dumps(ex["plans"], sort_keys=True)) if ex["finished"] else None)
             ctx.count("large_final.nonascii")
+    if prop == "C13":
+        # a poll whose returned state cannot be serialized fails the call durably (oracle-only: not in the model)
+        for i in range(ctx.scale(30, 600)):
+            k = ctx.rng.randrange(1, 4)
+            checks = [{"ok": ctx.rng.choice(["s", "i5", "t"])} for _ in range(k - 1)] + [{"ok": "!set"}]
+            script = [{"op": "wfc", "init": "s", "check": checks, "decide": [ctx.rng.choice([1, 2])] * (k - 1) + [None], "catch": True},
+                      {"op": "wait", "secs": 1}, {"op": "step", "body": [{"ok": "s"}], "amo": False,
+                                                   "retry": {"max": 1, "delays": [], "noretry": []}, "catch": True}]
+            if ctx.rng.random() < 0.5:
+                script = [{"op": "child", "body": script[:1], "limit": 200, "summary": "", "catch": True}] + script[1:]
+            ex = E.run_execution(script, ctx.rng.randrange(1 << 30), crash_p=0.0, fault_p=0.0)
+            run_oracles(ctx, ex, "engine.unserializable_state", only_prop=prop)
+            ctx.case((json.dumps(script, sort_keys=True), json.dumps(ex["plans"], sort_keys=True)) if len(ex["invs"]) >= 2 else None)
+            ctx.count("wfc.unserializable")
     if prop == "C12":
         from harness import comp_strategy
         comp_strategy.run(ctx)
